@@ -127,3 +127,31 @@ def build_jt(spec):
         jt.add_edge(tuple(a), tuple(b))
     jt.add_factors(*[build_factor(spec, f) for f in spec["factors"]])
     return jt
+
+
+def build_frame(ds, with_weights=False, row_order=None, col_order=None):
+    """data_spec -> pandas DataFrame (ints, categoricals or object columns)"""
+    import pandas as pd
+
+    cols = ds["columns"]
+    rows = ds["rows"] if row_order is None else [ds["rows"][i] for i in row_order]
+    data = {}
+    for j, c in enumerate(cols):
+        vals = [ds["states"][j][r[j]] for r in rows]
+        kind = ds["kinds"][j]
+        if kind == "int":
+            data[c] = pd.Series(vals, dtype="int64")
+        elif kind == "cat":
+            data[c] = pd.Categorical(vals, categories=list(ds["states"][j]))
+        else:
+            data[c] = pd.Series(vals, dtype=object)
+    order = cols if col_order is None else col_order
+    df = pd.DataFrame({c: data[c] for c in order})
+    if with_weights and ds.get("weights"):
+        w = ds["weights"] if row_order is None else [ds["weights"][i] for i in row_order]
+        df["_weight"] = pd.Series(w, dtype="float64")
+    return df
+
+
+def frame_state_names(ds):
+    return {c: list(s) for c, s in zip(ds["columns"], ds["states"])}
